@@ -26,16 +26,16 @@ struct Activity {
 #define DET_NOINLINE
 #endif
 DET_NOINLINE inline uint64_t scribbleStack(uint64_t seed) {
-    volatile uint64_t buf[6144];   // 48 kB below the caller's frame
+    volatile uint64_t buf[3072];   // 24 kB below the caller's frame
     uint64_t x = seed;
-    for (int i = 0; i < 6144; ++i) buf[i] = splitmix64(x);
-    return buf[seed % 6144];
+    for (int i = 0; i < 3072; ++i) buf[i] = splitmix64(x);
+    return buf[seed % 3072];
 }
 inline void scribbleHeap(uint64_t seed) {
-    static const size_t SZ[] = {16, 24, 32, 40, 48, 64, 80, 96, 128, 160, 192, 256, 320, 384, 512, 640, 768, 1024, 1536, 2048, 3072, 4096, 8192, 16384, 65536};
+    static const size_t SZ[] = {16, 24, 32, 40, 48, 64, 80, 96, 128, 160, 192, 256, 320, 384, 512, 640, 768, 1024, 1536, 2048, 3072, 4096};
     std::vector<void*> blocks; uint64_t x = seed;
     for (size_t s : SZ) {
-        int reps = s <= 512 ? 12 : s <= 4096 ? 6 : 2;
+        int reps = s <= 512 ? 10 : 4;
         for (int k = 0; k < reps; ++k) {
             uint64_t* p = (uint64_t*)malloc(s); if (!p) continue;
             for (size_t i = 0; i < s / 8; ++i) p[i] = splitmix64(x);
@@ -102,12 +102,12 @@ struct ActOptim : Activity {
     void slice() override {
         static const OptimizerAlgorithm ALG[] = {LBFGS, LBFGSB, InteriorPoint, CMAES};
         OptimizerAlgorithm alg = ALG[turn++ % 4];
-        int n = r.integer(2, 5);
+        int n = r.integer(2, 4);
         bool cons = (alg == InteriorPoint) && r.coin(0.7);
         NoiseProblem P(n, cons ? 1 : 0, cons && r.coin() ? 1 : 0, r);
         if (alg != LBFGS) { Vector lo(n), hi(n); for (int i = 0; i < n; ++i) { lo[i] = -r.uni(0.8, 2.5); hi[i] = r.uni(0.8, 2.5); } P.setParameterLimits(lo, hi); }
         Optimizer opt(P, alg);
-        opt.setDiagnosticsLevel(0); opt.setConvergenceTolerance(1e-6); opt.setMaxIterations(alg == CMAES ? 12 : 40);
+        opt.setDiagnosticsLevel(0); opt.setConvergenceTolerance(1e-6); opt.setMaxIterations(alg == CMAES ? 6 : 20);
         if (alg == CMAES) { opt.setAdvancedIntOption("seed", r.integer(1, 100000)); opt.setAdvancedRealOption("maxTimeFractionForEigendecomposition", 1); opt.setAdvancedRealOption("init_stepsize", 0.3); }
         if (alg != CMAES && r.coin(0.3)) opt.useNumericalGradient(true);
         if (alg == InteriorPoint && r.coin(0.3)) opt.useNumericalJacobian(true);
@@ -138,7 +138,7 @@ struct ActCollide : Activity {
             for (int f : t.getSurface1Faces()) h.i(f); for (int f : t.getSurface2Faces()) h.i(f); }
     }
     void slice() override {
-        int nQ = r.integer(2, 6);
+        int nQ = r.integer(1, 3);
         for (int q = 0; q < nQ; ++q) {
             int i = r.integer(0, (int)geo.size() - 1), j = r.integer(0, (int)geo.size() - 1);
             Transform X1(randRotation(r), randVec3(r, 0.3)), X2(randRotation(r), randVec3(r, 0.8));
@@ -147,7 +147,7 @@ struct ActCollide : Activity {
             if (alg) { Array_<Contact> cs; alg->processObjects(ContactSurfaceIndex(0), geo[i], X1, ContactSurfaceIndex(1), geo[j], X2, cs); h.i(cs.size()); for (auto& c : cs) hashContact(c); }
         }
         // point and ray queries
-        for (int q = 0; q < 3; ++q) {
+        for (int q = 0; q < 2; ++q) {
             int i = r.integer(1, 5);
             Vec3 p = randVec3(r, 1.5); bool inside = false; UnitVec3 nrm;
             try { Vec3 np = geo[i].findNearestPoint(p, inside, nrm); h.v3(np); h.i(inside); h.v3(Vec3(nrm)); } catch (const std::exception& e) { h.s(e.what()); }
@@ -159,11 +159,13 @@ struct ActCollide : Activity {
 
 // ---------------------------------------------------------------------------------- geodesics
 struct ActGeodesic : Activity {
+    std::string anomaly;   // set when a query's result depends on earlier queries on the same geometry object
     ActGeodesic(uint64_t seed) : Activity(seed, "geodesics") {}
-    void hashGeod(const Geodesic& g) {
+    static void hashGeodTo(H64& h, const Geodesic& g) {
         h.i(g.getNumPoints()); h.d(g.getLength());
         if (g.getNumPoints() > 0) { h.v3(g.getPointQ()); h.v3(Vec3(g.getTangentQ())); h.d(g.getJacobiQ()); for (Real s : g.getArcLengths()) h.d(s); }
     }
+    void hashGeod(const Geodesic& g) { hashGeodTo(h, g); }
     void slice() override {
         int kind = r.integer(0, 3);
         ContactGeometry geo;
@@ -176,10 +178,16 @@ struct ActGeodesic : Activity {
         UnitVec3 n = geo.calcSurfaceUnitNormal(P);
         Vec3 tv = randVec3(r, 1); tv -= dot(tv, Vec3(n)) * Vec3(n); if (tv.norm() < 1e-3) tv = Vec3(n.perp());
         UnitVec3 tP(tv);
-        GeodesicOptions opts; Geodesic g;
-        geo.shootGeodesicInDirectionUntilLengthReached(P, tP, scale * r.uni(0.3, 2.5), opts, g); hashGeod(g);
+        GeodesicOptions opts; Geodesic g; const double len = scale * r.uni(0.3, 2.5);
+        geo.shootGeodesicInDirectionUntilLengthReached(P, tP, len, opts, g); hashGeod(g);
         if (kind <= 2 && r.coin(0.6)) { Geodesic g2; geo.shootGeodesicInDirectionUntilLengthReachedAnalytical(P, tP, scale * r.uni(0.3, 2.5), opts, g2); hashGeod(g2); }
-        if (kind <= 1 && r.coin(0.5) && g.getNumPoints() > 1) { Geodesic g3; geo.calcGeodesic(P, g.getPointQ(), Vec3(tP), Vec3(g.getTangentQ()), g3); hashGeod(g3); }
+        if (kind <= 1 && r.coin(0.5) && g.getNumPoints() > 1) {
+            Geodesic g3; geo.calcGeodesic(P, g.getPointQ(), Vec3(tP), Vec3(g.getTangentQ()), g3); hashGeod(g3);
+            // the same shot again on the geometry object that has just served a two-point (plane-terminated) query
+            Geodesic g4; geo.shootGeodesicInDirectionUntilLengthReached(P, tP, len, opts, g4);
+            H64 a, b; hashGeodTo(a, g); hashGeodTo(b, g4);
+            if (a.h != b.h && anomaly.empty()) { char buf[200]; snprintf(buf, sizeof buf, "shape kind %d: length-terminated shot gives length %.17g (%d points) before and %.17g (%d points) after calcGeodesic() on the same object; requested %.17g", kind, (double)g.getLength(), g.getNumPoints(), (double)g4.getLength(), g4.getNumPoints(), len); anomaly = buf; }
+        }
     }
 };
 
@@ -209,31 +217,33 @@ struct ActLinalg : Activity {
 // ---------------------------------------------------------------------------------- another simulation
 struct ActSim : Activity {
     ScenKnobs kn; long cyc; int nextInteg; std::unique_ptr<Scen> sc; std::unique_ptr<Run> run;
-    ActSim(uint64_t seed, const ScenKnobs& kn, int firstInteg) : Activity(seed, "other-simulation"), kn(kn), cyc((long)(seed % 1000)), nextInteg(firstInteg) {}
+    std::vector<std::pair<Json, Traj>> history;   // every simulation this activity has run or is running (for witnesses)
+    ActSim(uint64_t seed, const ScenKnobs& kn, int firstInteg, const char* nm) : Activity(seed, nm), kn(kn), cyc((long)(seed % 1000)), nextInteg(firstInteg) {}
     ~ActSim() override { run.reset(); sc.reset(); }
     void slice() override {
         if (!run) {
             sc.reset(new Scen()); sc->build(r.next(), cyc++, kn, nextInteg); nextInteg = (nextInteg + 3) % IK_Count;
             run.reset(new Run(*sc, sc->s0)); h.s(ikName(sc->io.kind));
+            history.emplace_back(sc->toJson(), Traj());
         }
         int n = r.integer(1, 3);
-        for (int k = 0; k < n && run; ++k) if (!run->step()) { h.i((long long)run->traj.finalHash()); run.reset(); sc.reset(); }
+        for (int k = 0; k < n && run; ++k) { bool more = run->step(); history.back().second = run->traj; if (!more) { h.i((long long)run->traj.finalHash()); run.reset(); sc.reset(); } }
         if (run && !run->traj.steps.empty()) h.i((long long)run->traj.steps.back().cum);
     }
 };
 
 // ---------------------------------------------------------------------------------- the noise set of one case
 struct Noise {
-    std::vector<std::unique_ptr<Activity>> acts; Rng pick; std::string last;
-    Noise(uint64_t seed, const ScenKnobs& kn, int simInteg) : pick(mix(seed, 99)) {
-        acts.emplace_back(new ActSim(mix(seed, 1), kn, simInteg));
+    std::vector<std::unique_ptr<Activity>> acts; Rng pick; std::string last; ActGeodesic* geod = nullptr;
+    Noise(uint64_t seed, const ScenKnobs& kn, int simInteg, bool geodesics = true) : pick(mix(seed, 99)) {
+        acts.emplace_back(new ActSim(mix(seed, 1), kn, simInteg, "other-simulation-1"));
         acts.emplace_back(new ActOptim(mix(seed, 2)));
         acts.emplace_back(new ActCollide(mix(seed, 3)));
         acts.emplace_back(new ActRandom(mix(seed, 4)));
-        acts.emplace_back(new ActGeodesic(mix(seed, 5)));
+        if (geodesics) { geod = new ActGeodesic(mix(seed, 5)); acts.emplace_back(geod); } else acts.emplace_back(new ActLinalg(mix(seed, 5)));
         acts.emplace_back(new ActLinalg(mix(seed, 6)));
         acts.emplace_back(new ActScribble(mix(seed, 7)));
-        acts.emplace_back(new ActSim(mix(seed, 8), kn, (simInteg + 5) % IK_Count));
+        acts.emplace_back(new ActSim(mix(seed, 8), kn, (simInteg + 5) % IK_Count, "other-simulation-2"));
     }
     // one slot of unrelated activity: 1-2 activities chosen by the noise's own generator
     void slot() {
